@@ -329,6 +329,28 @@ impl EntitiesRes {
     }
 }
 
+#[cfg(feature = "verif-hooks")]
+impl EntitiesRes {
+    /// Read-only copy of the allocator's internal sets for the external
+    /// runtime-verification harness. Meaningful at quiescent points (no
+    /// concurrent `create` / `delete` in flight).
+    pub fn verif_snapshot(&self) -> crate::verif::AllocatorSnapshot {
+        use hibitset::BitSetLike;
+
+        let a = &self.alloc;
+        let len = a.cache.len.load(Ordering::Relaxed);
+        crate::verif::AllocatorSnapshot {
+            generations: a.generations.iter().map(|g| g.id()).collect(),
+            alive: (&a.alive).iter().collect(),
+            raised: (&a.raised).iter().collect(),
+            killed: (&a.killed).iter().collect(),
+            cache: a.cache.cache[..len.min(a.cache.cache.len())].to_vec(),
+            cache_vec_len: a.cache.cache.len(),
+            max_id: a.max_id.load(Ordering::Relaxed),
+        }
+    }
+}
+
 // SAFETY: It is safe to retrieve elements with any `id` regardless of the mask.
 #[nougat::gat]
 unsafe impl<'a> LendJoin for &'a EntitiesRes {
